@@ -505,6 +505,8 @@ fn compile_to_ir_using_alpha(
 		compiler.for_wasm()?;
 	}
 
+	let mut written_paths = std::collections::HashSet::new();
+
 	for (filepath, declarations) in modules
 	{
 		let filename = filepath.to_string_lossy().to_string();
@@ -553,6 +555,13 @@ fn compile_to_ir_using_alpha(
 				path.set_extension("pn.ll");
 				path
 			};
+			if !written_paths.insert(outputpath.clone())
+			{
+				return Err(anyhow!(
+					"multiple modules would be written to {}",
+					outputpath.display()
+				));
+			}
 			let dirname = outputpath.parent().context("invalid output dir")?;
 			std::fs::create_dir_all(dirname)?;
 			stdout.io_header("Writing to", &outputpath)?;
